@@ -183,7 +183,9 @@ def run(ctx):
         return job, text, rows, r
 
     st = dict(agreed=0, distinct=set(), samples=[], hist=collections.Counter())
+    done_texts = []
     for (atoms, f), text, rows, r in pmap(one, jobs):
+        done_texts.append((f, text))
         case = {"tree": "14 names x 3 directories, sizes 0..1000 (see vlib/c03.py build_tree)", "query": r["query"], "atoms": atoms}
         if rows is None or r["status"] != 0:
             ctx.violation("impl-violates-spec", "status %s stderr %r" % (r["status"], r["stderr"][:200]), input=case)
@@ -205,8 +207,30 @@ def run(ctx):
             st["distinct"].add(text)
         if len(st["samples"]) < 4 and size_of(f) >= 5 and 0 < got < full:
             st["samples"].append({"where": text, "rows": bin(got).count("1"), "of": len(universe)})
+    # ---- the same WHERE formulas through the real lexer+parser (harness) and the Gallina model the C03 theorems are about:
+    #      outcome and the whole syntax tree must be identical (this is what ties C03_parser_boolean_algebra to parser.rs) ----
+    n_corr = 0
+    try:
+        from . import parselib
+        texts = sorted({x[1] for x in done_texts})
+        if ctx.tier == "quick" and len(texts) > 400:
+            texts = rng.sample(texts, 400)
+        texts += ["not is_dir", "not not is_dir", "is_dir and not is_hidden", "not (is_dir)", "not {is_file or is_hidden}", "not contains('x') or is_dir", "not size > 3 and not name like 'a%'"]
+        vectors = [["path from b where " + x] for x in texts]
+        real = parselib.eval_real(vectors)
+        model = parselib.eval_model(ctx, vectors, "c03p")
+        for v, (rl, rq), (ml, mq) in zip(vectors, real, model):
+            n_corr += 1
+            if rl != ml or rq != mq:
+                ctx.violation("correspondence-mismatch", "lexer/parser result for a WHERE formula differs from model.Lexer / model.Parser", input={"argv": v}, observed=(rl[:300], rq[:400]), model=(ml[:300], mq[:400]),
+                              concrete=False, correspondence="harness Lexer+Parser::parse vs model.Lexer.lex + model.Parser.parse (the model of C03_parser_boolean_algebra)")
+            else:
+                st["agreed"] += 1
+                st["hist"]["parser_model_agrees"] += 1
+    except Exception as e:
+        ctx.notes.append("parser correspondence unavailable (%s)" % str(e)[:200])
     ctx.coverage.update(
-        evaluations=len(jobs) + len(ATOMS), distinct_nontrivial=len(st["distinct"]), traces_validated_against_impl=st["agreed"],
-        rule="tree of 42 files incl. hidden ones (sizes around the literals: v-1, v, v+1; names around the patterns) realising the truth assignments of %d atoms of every operator kind (incl. between / not between / not like, boolean with and without `= true`, bare boolean function, regex, glob, function); EVERY formula shape up to %d nodes over three atoms (x several atom triples) plus random formulas to depth 5, rendered with minimal or redundant brackets in both styles and prefix `not`; the documented complements between atoms (between / not between with bounds that occur in the tree, like / not like, each comparison and its opposite) are checked directly; the formula's result set must equal the Boolean combination (and = intersection, or = union, not = complement) of the atoms' own result sets. non-trivial = >= 3 nodes and a proper non-empty result" % (len(ATOMS), bound),
+        evaluations=len(jobs) + len(ATOMS) + n_corr, distinct_nontrivial=len(st["distinct"]), traces_validated_against_impl=st["agreed"],
+        rule="tree of 42 files incl. hidden ones (sizes around the literals: v-1, v, v+1; names around the patterns) realising the truth assignments of %d atoms of every operator kind (incl. between / not between / not like, boolean with and without `= true`, bare boolean function, regex, glob, function); EVERY formula shape up to %d nodes over three atoms (x several atom triples) plus random formulas to depth 5, rendered with minimal or redundant brackets in both styles and prefix `not`; the documented complements between atoms (between / not between with bounds that occur in the tree, like / not like, each comparison and its opposite) are checked directly; every formula is also parsed by the real lexer+parser and by model.Parser (identical syntax trees required); the formula's result set must equal the Boolean combination (and = intersection, or = union, not = complement) of the atoms' own result sets. non-trivial = >= 3 nodes and a proper non-empty result" % (len(ATOMS), bound),
         samples=st["samples"], distribution=dict(st["hist"]), exhaustive_up_to_size=bound)
     return ctx.finish(trusted=["atom truth values are taken from the implementation's own single-atom runs (their meaning is C02's subject)"])
